@@ -10,7 +10,7 @@ CFG = dict(
                "(identified_owner_succeeds), base-once sequences keep the bias (obj_addr_seq_meets_spec), the evaluated checkers accept the "
                "model on every input (obj_addr_meets_spec, addr_info_meets_spec); nm lookup over any sorted table returns a symbol with the "
                "greatest start not above the address, data symbols only within their size (addr_info_greatest_le, addr_info_none_reason), "
-               "binary search fuel suffices; glue: locateBinaries never replaces the recorded file by a file with another (or no) build id when the profile records one, Merge lands a mapping on a merged mapping with the same key and its rebased addresses denote the same link-time addresses, fast symbolization of a mapping looks every location up in the nm table shifted by the load bias and finds the symbol containing address - bias (locate_build_id, merge_mapping_same_key, rebase_preserves_link, symbolize_mapping_bias, fast_lookup_link_address); request and answer of an addr2line / llvm-symbolizer conversation stay paired: after every request the pipe is drained, so the k-th answer is the tool's answer for address_k - base whatever was asked before (conversation_paired, conversation_meets_spec, llvm_conversation_paired); objects returned by Open are independent: along every history of Open/ObjAddr/SetFastSymbolization/Close on one Binutils each object answers as a stand-alone file, hence address - bias per object (session_handle_independent, session_handle_meets_spec, open_elf_user_ok); addr2Liner.addrInfo's nm fix-up consults the runtime-keyed table (link address + base) with the runtime address and replaces only the non-inlined frame's name (a2l_fixup_meets_spec); all outside the known-finding class F23 (refuted twin proved). Model tied to the code by ~4,800 "
+               "binary search fuel suffices; glue: locateBinaries never replaces the recorded file by a file with another (or no) build id when the profile records one, Merge lands a mapping on a merged mapping with the same key and its rebased addresses denote the same link-time addresses, fast symbolization of a mapping looks every location up in the nm table shifted by the load bias and finds the symbol containing address - bias massageMappings merges consecutive pieces of one segment image into a piece with the same start - offset (pieces_adjacent, merge_adjacent_piece); (locate_build_id, merge_mapping_same_key, rebase_preserves_link, symbolize_mapping_bias, fast_lookup_link_address); request and answer of an addr2line / llvm-symbolizer conversation stay paired: after every request the pipe is drained, so the k-th answer is the tool's answer for address_k - base whatever was asked before (conversation_paired, conversation_meets_spec, llvm_conversation_paired); objects returned by Open are independent: along every history of Open/ObjAddr/SetFastSymbolization/Close on one Binutils each object answers as a stand-alone file, hence address - bias per object (session_handle_independent, session_handle_meets_spec, open_elf_user_ok); addr2Liner.addrInfo's nm fix-up consults the runtime-keyed table (link address + base) with the runtime address and replaces only the non-inlined frame's name (a2l_fixup_meets_spec); all outside the known-finding class F23 (refuted twin proved). Model tied to the code by ~4,800 "
                "differential cases per quick run (GetBase incl. kernel heuristics, ProgramHeadersForMapping, HeaderForFileOffset, "
                "computeBase/ObjAddr through a fake elfOpen, parseAddr2LinerNM+addrInfo, addr2Liner.addrInfo with a scripted pipe and an attached nm table).",
     level_note="Kernel heuristics of GetBase/kernelBase are corresponded only (the statement does not cover kernel images). Addresses in the "
@@ -24,7 +24,7 @@ CFG = dict(
          "neighbour-file-range edges; plus unit cases for GetBase (kernel thresholds, empirical kernel tuples), ProgramHeadersForMapping "
          "(offsets/limits at every comparison threshold, wrap-around headers), HeaderForFileOffset, objaddr with arbitrary mappings "
          "(error paths, kernel paths, nil mapping, open failure, ET_REL/ET_NONE, no PT_LOAD), nm tables (ties, zero/huge sizes, data and "
-         "code types, junk lines, wrap-around bases). a2lnm cases (contiguous text tables x base {0, small, pages, below text size, large} x runtime address x truncated / full / unrelated addr2line names x inlined frames). session cases = histories on ONE Binutils through the public API over real minimal ELF files (1..2 files x 1..2 biases x every segment's image or a piece, shuffled order, repeated opens, interleaved ObjAddr across objects, SetFastSymbolization / Close in between, tiny page-sharing layouts preferred). conv cases = 2..10 addresses asked of ONE addr2Liner (optionally with nm) or ONE llvmSymbolizer over one simulated pipe (known / inlined / half-known / unknown addresses, file:line forms, repeats). e2e cases = worlds (ELF files with symbol tables on disk, processes, profile files) pushed through driver.PProf (-proto/-top/-traces, several sources, -diff_base, option combinations), an interactive session and the web /top handler with the real binutils + nm/llvm-symbolizer; deterministic decisive worlds (same runtime address in two binaries, two runs of one PIE with different extents, stale builds in PPROF_BINARY_PATH, page-sharing tiny object) + random worlds. distinct = sha256 of the input term; non-trivial = a mapping, >= 1 address and >= 1 "
+         "code types, junk lines, wrap-around bases). a2lnm cases (contiguous text tables x base {0, small, pages, below text size, large} x runtime address x truncated / full / unrelated addr2line names x inlined frames). session cases = histories on ONE Binutils through the public API over real minimal ELF files (1..2 files x 1..2 biases x every segment's image or a piece, shuffled order, repeated opens, interleaved ObjAddr across objects, SetFastSymbolization / Close in between, tiny page-sharing layouts preferred). conv cases = 2..10 addresses asked of ONE addr2Liner (optionally with nm) or ONE llvmSymbolizer over one simulated pipe (known / inlined / half-known / unknown addresses, file:line forms, repeats). e2e cases = worlds (ELF files with symbol tables on disk, processes, profile files) pushed through driver.PProf (-proto/-top/-traces, several sources, -diff_base, option combinations), an interactive session and the web /top handler with the real binutils + nm/llvm-symbolizer; deterministic decisive worlds (same runtime address in two binaries, two runs of one PIE with different extents, stale builds in PPROF_BINARY_PATH, page-sharing tiny object) + random worlds. legacy worlds = the same worlds written as legacy text profiles with a /proc/self/maps memory map (split / huge-page / gap / missing-first-part / 0x400000 / library-first shapes) through the real legacy parser, massageMappings and remapMappingIDs. distinct = sha256 of the input term; non-trivial = a mapping, >= 1 address and >= 1 "
          "PT_LOAD (objaddr), a segment given (getbase), >= 2 headers (phm, hffo), >= 2 symbols and >= 1 address (nm)",
     spec_what="an address among the owning segment's own bytes in a loader-made mapping was translated to something other than "
               "runtime address - load bias (or an error was returned although the owner is the only header containing its file offset), "
